@@ -125,9 +125,34 @@ func gen(r *hlib.Rand, n int, tier, profile string, emit func(string, ...any)) {
 	for ops < n {
 		w := fwlib.GenWorld(r, 3)
 		durs := []uint64{2 * sec, 3 * sec, 5 * sec, 10 * sec, 60 * sec}
-		tcp, udp, dflt := hlib.Pick(r, durs...), hlib.Pick(r, durs...), hlib.Pick(r, durs...)
-		if r.Chance(1, 6) {
-			tcp, udp, dflt = 12*60*sec, 3*60*sec, 10*60*sec // nebula's defaults
+		// three timeouts in every one of the 6 orderings of (tcp, udp, default) — the wheel's tick and span are
+		// derived from their minimum and maximum —, sometimes with ties; and nebula's shipped 12m / 3m / 10m
+		var tcp, udp, dflt uint64
+		{
+			i := r.Intn(len(durs) - 2)
+			j := r.Range(i+1, len(durs)-2)
+			k := r.Range(j+1, len(durs)-1)
+			lo, mid, hi := durs[i], durs[j], durs[k]
+			switch r.Intn(8) {
+			case 0:
+				lo, mid, hi = 3*60*sec, 10*60*sec, 12*60*sec
+			case 1:
+				mid = hlib.Pick(r, lo, hi)
+			}
+			switch r.Intn(6) {
+			case 0:
+				tcp, udp, dflt = lo, mid, hi
+			case 1:
+				tcp, udp, dflt = lo, hi, mid
+			case 2:
+				tcp, udp, dflt = mid, lo, hi
+			case 3:
+				tcp, udp, dflt = mid, hi, lo
+			case 4:
+				tcp, udp, dflt = hi, lo, mid // the shipped order: tcp > default > udp
+			default:
+				tcp, udp, dflt = hi, mid, lo
+			}
 		}
 		cache := uint64(0)
 		reloads := profile == "C19" || r.Chance(1, 4)
@@ -199,6 +224,47 @@ func gen(r *hlib.Rand, n int, tier, profile string, emit func(string, ...any)) {
 				emit("sleep %d", d)
 			case x < 17:
 				emit("conns")
+				if r.Chance(1, 2) {
+					continue
+				}
+				// a flow that is never idle for its timeout, also across reloads that keep allowing it: packets in
+				// either direction at gaps just under the timeout, a reload somewhere inside a gap
+				var f flow
+				if len(flows) > 0 && r.Chance(1, 2) {
+					f = flows[r.Intn(len(flows))]
+				} else {
+					f.peer = r.Intn(len(w.Peers))
+					f.p, _ = w.GenPacket(r, w.Peers[f.peer])
+					f.p.LocalAddr = w.My.CNets[0].Addr()
+					f.p.RemoteAddr = w.Peers[f.peer].CNets[0].Addr()
+					flows = append(flows, f)
+				}
+				T := timeouts[2]
+				switch f.p.Protocol {
+				case 6:
+					T = timeouts[0]
+				case 17:
+					T = timeouts[1]
+				}
+				emit("drop p%d %s %s", f.peer, fwlib.Dir(r.Bool()), fwlib.PacketTokens(f.p))
+				ops++
+				for j := r.Range(2, 5); j > 0; j-- {
+					gap := hlib.Pick(r, T-1, T-1, T-1, T*3/4, T/2, T-2)
+					if reloads && r.Chance(1, 2) {
+						a := gap * uint64(r.Range(0, 10)) / 10
+						emit("sleep %d", a)
+						nonce++
+						for _, ru := range current {
+							emit("stage %s", ru.Tokens())
+						}
+						emit("reload %s %d %d %d %d", hlib.B(w.DLCA), timeouts[0], timeouts[1], timeouts[2], nonce)
+						emit("sleep %d", gap-a)
+					} else {
+						emit("sleep %d", gap)
+					}
+					emit("drop p%d %s %s", f.peer, fwlib.Dir(r.Bool()), fwlib.PacketTokens(f.p))
+					ops++
+				}
 			case x < 18: // unrelated churn: a burst of fresh tuples advances the wheel
 				for j := r.Range(1, 4); j > 0; j-- {
 					pi := r.Intn(len(w.Peers))
